@@ -36,11 +36,15 @@ def run(c):
         "between any two attempts, twice in a row (an instance that delivers nothing), in a third of the cases; every 8th case has somebody failing in the first attempt after the first restart; "
         "envelopes (C01 run ... E=): message with / without SMTPUTF8, return path ASCII / non-ASCII local part / IDN domain (U- or A-labels), per recipient an ORIGINAL (client-supplied, rewritten) address of one of those shapes "
         "(MsgMetadata.OriginalRcpts) that the failure report has to name; every 8th case: SMTPUTF8 message whose sender and effective recipients are ASCII, whose original recipient is not, failing for good in the first attempt; "
+        "the error grid (C01 cls: every class t|p|u x 8 shapes - exterrors.SMTPError bare / in WithFields / in WithTemporary, marker against the basic code, go-smtp SMTPError, plain, wrapped, context errors - x 10 styles of the enhanced status code: agreeing, absent, class 2/4/5 against the basic code, 0.1.1, 1.1.1, 9.0.0, -1.-1.-1, x.1000.1; one op line per point; "
+        "C01 run ... X=: the failures of a history spelled in those forms, every 8th case a 5yz/4yz failure in the first attempt whose enhanced code disagrees or is odd, with a bounce route; C01 hop .../<style>: every 4xx/5xx reply of the scripted next hop carries such an enhanced code, per target kind every style in every run); "
+        "oracle on the BASIC reply codes: no recipient is offered to the next hop again after its last reply was 5yz, one whose last reply was 4yz with attempts left is tried again, every terminal failure is reported whatever status it carries; "
+        "transient read faults (C01 run ... T=: before a retry - or before the first attempt after a restart - the entry's header is a directory / its meta-data is cut short / is a directory while an instance loads or dispatches it, then repaired and the server restarted; every 8th case); "
         "one fault plan per attempt (start / per-recipient / body / per-recipient body status / commit, each ok|temporary|permanent|unclassified, fault density 10-90%); "
         "the REAL queue (time wheel, spool files, DSN generator) runs each to quiescence against a scripted target; the whole call/commit/report trace is compared "
         "with the Lean model's trace; distinct = distinct scenarios",
         explanation="theorems over all recipient lists, kinds, maxTries and plan streams (C01_exactly_one_outcome) and over all next-hop scripts for the three forwarding targets "
         "(C01_hop_attempt_truthful, C01_hop_exactly_one_outcome, C01_hop_body_fault_not_acked) and over all schedules of restarts and all well-formed envelopes "
-        "(Model/QueueRestart.lean: runR_eq, C01_exactly_one_outcome_with_restarts - a restart is transparent, no attempt panics on a nil bookkeeping map, every due report can be generated); recipients are opaque identities in the model; models tied to queue.go / remote.go / smtp_downstream.go / smtpconn.go by differential runs",
+        "(Model/QueueRestart.lean: runR_eq, C01_exactly_one_outcome_with_restarts, C01_exactly_one_outcome_with_read_faults - a restart and a read of the entry that failed transiently are transparent, no attempt panics on a nil bookkeeping map, every due report can be generated); the class of a failure is a function of the basic reply code / the WithTemporary marker on the Unwrap chain and never of the enhanced status code (Model/QueueErr.lean: C01_retry_decision_ignores_enhanced_code, C01_classify_ignores_enhanced_code, C01_permanent_reply_not_requeued, C01_recorded_status_reportable); recipients are opaque identities in the model; models tied to queue.go / remote.go / smtp_downstream.go / smtpconn.go by differential runs",
         search=search,
     )
